@@ -657,6 +657,8 @@ func main() {
 	// uniqueness under bursts: TimeUUID() far above 16384 calls with the harness's own clock readings around
 	// every chunk (spec-backed monitors), and generator runs under a controlled clock
 	runBursts(r, out, mult)
+	// error values: Go error type and text of every failing entry point
+	runErrs(r, out, mult)
 	// concurrent callers as schedules: the interleaving of readings and increments is the input
 	runSched(r, out, mult)
 	// property oracles on the representable range
